@@ -670,11 +670,15 @@ class ExpressionValue(Value):
         :param symbol_table: the symbol table to use for resolution
         :return: self, or a new Operand class type with a resolved value
         """
-        if self.left.is_symbol():
-            self.left = self.get_symbol(self.left.ascii(), symbol_table)
+        left = self.get_symbol(self.left.ascii(), symbol_table) if self.left.is_symbol() else self.left
+        right = self.get_symbol(self.right.ascii(), symbol_table) if self.right.is_symbol() else self.right
 
-        if self.right.is_symbol():
-            self.right = self.get_symbol(self.right.ascii(), symbol_table)
+        # A symbol whose own definition is not resolved yet cannot be used, whatever order definitions come in
+        for operand in (left, right):
+            if not (operand.is_numeric() or operand.is_address()):
+                raise ValueError("[{}] unresolved expression".format(self.original_value))
+        self.left = left
+        self.right = right
 
         mode = ExplicitAddressingMode.DIRECT
 
